@@ -872,6 +872,41 @@ def cse_order(cx_w, rep):
               where=(REL, build[2].lineno), fact={"build": _ast.unparse(build[2].iter), "apply": _ast.unparse(apply_[2].iter)})
 
 
+    # ---- clean-up of the caller's table: only names introduced by the cse pass may be removed
+    snap_names = set()
+    for st in branch.body:
+        for n in _ast.walk(st):
+            if isinstance(n, _ast.Assign) and len(n.targets) == 1 and isinstance(n.targets[0], _ast.Name):
+                v = n.value
+                src = _ast.unparse(v)
+                if src in ("set(symbols)", "set(symbols.keys())", "list(symbols)", "list(symbols.keys())", "tuple(symbols)", "dict(symbols)", "symbols.copy()", "frozenset(symbols)", "symbols.keys() | set()"):
+                    snap_names.add(n.targets[0].id)
+    pops = []
+    for n in _ast.walk(branch):
+        if isinstance(n, _ast.Call) and isinstance(n.func, _ast.Attribute) and n.func.attr == "pop" and _ast.unparse(n.func.value) == "symbols":
+            pops.append(n)
+        elif isinstance(n, _ast.Delete) and any(_ast.unparse(t).startswith("symbols[") for t in n.targets):
+            pops.append(n)
+    inst = "_sympy_parser cse path: only names introduced by sympy.cse are removed from the caller's symbol table"
+    if not pops:
+        rep.na(R, inst, "nothing is removed from the table")
+    else:
+        bad = []
+        for pnode in pops:
+            guarded_ = False
+            x = getattr(pnode, "_parent", None)
+            while x is not None and x is not branch:
+                if isinstance(x, _ast.If):
+                    for c in _ast.walk(x.test):
+                        if isinstance(c, _ast.Compare) and len(c.ops) == 1 and isinstance(c.ops[0], _ast.NotIn) and isinstance(c.comparators[0], _ast.Name) and c.comparators[0].id in snap_names:
+                            guarded_ = True
+                x = getattr(x, "_parent", None)
+            if not guarded_:
+                bad.append(pnode)
+        rep.check(R, inst, not bad, "`%s` removes a name without checking that it was absent from the table on entry: a caller's own symbol called like a cse temporary (x0, x1, ...) is evicted, and the "
+                  "next conversion with the same table creates a second variable of that name" % (_ast.unparse(bad[0]) if bad else ""), where=(REL, bad[0].lineno if bad else branch.lineno))
+
+
 # ------------------------------------------------------------------ entry point
 def run(w, rep, tier):
     rep.rule("C19.dispatch", "each dispatch chain tests every opcode/type at most once and ends in an else that raises")
